@@ -335,6 +335,17 @@ ADDED6 = {
 }
 for _k, _v in ADDED6.items():
     ADDED[_k] = ADDED.get(_k, "") + _v
+ADDED7 = {
+    "C04": " The shipped scenario's agent also observes two stand-alone link components.",
+    "C11": " The mask bit the environment handed out before a step is taken over when it denies (a masked-out action never succeeds, "
+           "pre_timestep included).",
+    "C13": " The service and application transition tours of Lifecycle.tla are executed through the environment and validated against "
+           "LifecycleTrace.tla (timed transitions while the node is power-cycled with timed start-up and shut-down).",
+    "C14": " Durations stated in the scenario (defaults block included, 0 included) win over the built objects' in the trace configuration; "
+           "the toured folder is declared for the node when they come from the defaults block.",
+}
+for _k, _v in ADDED7.items():
+    ADDED[_k] = ADDED.get(_k, "") + _v
 for _k, _v in ADDED.items():
     if _k in CHECKS:
         CHECKS[_k]["text"] = CHECKS[_k]["text"] + _v
